@@ -6,11 +6,11 @@ package main
 //
 // The bytes live in a sparse anonymous mapping (MAP_NORESERVE, untouched pages are the kernel's zero page):
 // all zero except a few deterministic non-zero bytes at the start, at stripe/block boundaries and at the end.
-// Each length is hashed with every back end through Hash, and through HashString and Hash128 (all back ends in
-// the thorough tier, the default one in the quick tier). Judged (all kind 2, label "len-class >2GiB/sparse"):
+// Each length (quick: 2^31+17, 2^32+17; thorough: 2^31+16, 2^31+17, 2^31+1MiB, 2^32+16, 2^32+17) is hashed with
+// every back end through Hash, HashString, Hash128 and Hash128String. Judged (all kind 2, label "len-class >2GiB/sparse"):
 //   (a) the results of all back ends / entry points must be identical;
 //   (b) Hash must equal internal/xxh3_raw.Hash on the same memory (independent scalar port, uint64 lengths)
-//       and, thorough tier, Hash128 must equal xxh3_raw.Hash128;
+//       and Hash128 must equal xxh3_raw.Hash128;
 //   (c) Hash must equal the low 64 bits of Hash128: for every input longer than 240 bytes that is a theorem
 //       about the Spec (C16_long_low64), so it is a Spec-backed reference that does not need to evaluate
 //       2 GiB inside Coq.
@@ -69,7 +69,7 @@ func hugeLengths(thorough bool) []int {
 	if thorough {
 		return []int{1<<31 + 16, 1<<31 + 17, 1<<31 + 1<<20, 1<<32 + 16, 1<<32 + 17}
 	}
-	return []int{1<<31 + 17}
+	return []int{1<<31 + 17, 1<<32 + 17}
 }
 
 func hugeChild() {
@@ -138,9 +138,7 @@ func hugeChild() {
 		fmt.Printf("progress len=%d raw\n", n)
 		rawH := xxhash3.VerifRawHash(b)
 		var rawH128 [2]uint64
-		if thorough {
-			rawH128 = xxhash3.VerifRawHash128(b)
-		}
+		rawH128 = xxhash3.VerifRawHash128(b)
 		res.Calls++
 		var firstH uint64
 		var firstH128 [2]uint64
@@ -153,28 +151,28 @@ func hugeChild() {
 			if bi == 0 {
 				firstH = h
 			} else if h != firstH {
-				report("back ends disagree on Hash", map[string]interface{}{"backend": be.name, "got": h, "first_backend": backends[0].name, "first": firstH})
+				report("back ends disagree on Hash", map[string]interface{}{"backend": be.name, "got": fmt.Sprint(h), "first_backend": backends[0].name, "first": fmt.Sprint(firstH)})
 			}
 			if h != rawH {
-				report("Hash differs from internal/xxh3_raw on the same bytes", map[string]interface{}{"backend": be.name, "got": h, "xxh3_raw": rawH})
+				report("Hash differs from internal/xxh3_raw on the same bytes", map[string]interface{}{"backend": be.name, "got": fmt.Sprint(h), "xxh3_raw": fmt.Sprint(rawH)})
 			}
-			if thorough || bi == 0 {
+			{
 				hs := xxhash3.HashString(strView(b))
 				h128 := xxhash3.Hash128(b)
 				res.Calls += 2
 				if hs != h {
-					report("HashString differs from Hash on the same bytes", map[string]interface{}{"backend": be.name, "Hash": h, "HashString": hs})
+					report("HashString differs from Hash on the same bytes", map[string]interface{}{"backend": be.name, "Hash": fmt.Sprint(h), "HashString": fmt.Sprint(hs)})
 				}
 				if h128[1] != h {
 					report("Hash differs from the low 64 bits of Hash128 (equal for every input > 240 bytes: theorem C16_long_low64)",
-						map[string]interface{}{"backend": be.name, "Hash": h, "Hash128": fmt.Sprint(h128)})
+						map[string]interface{}{"backend": be.name, "Hash": fmt.Sprint(h), "Hash128": fmt.Sprint(h128)})
 				}
 				if !have128 {
 					firstH128, have128 = h128, true
 				} else if h128 != firstH128 {
 					report("back ends disagree on Hash128", map[string]interface{}{"backend": be.name, "got": fmt.Sprint(h128), "first": fmt.Sprint(firstH128)})
 				}
-				if thorough {
+				{
 					hs128 := xxhash3.Hash128String(strView(b))
 					res.Calls++
 					if hs128 != h128 {
